@@ -16,7 +16,7 @@ K1 = (_P // 10) % 10
 I1 = (_P // 100) % 10
 PIN2 = (_P // 1000)          # depth-3 runs: 1 + (k2 * 4 + i2), 0 = not pinned
 PFX = "pq"
-URI = "uv"
+URI = ("u", "u/")          # two URIs that differ only by a trailing slash
 
 
 def cint(x: int, n: int) -> int:
@@ -161,7 +161,7 @@ def h_step(c0: int, c1: int, c2: int, c3: int, kind: int, i: int, u: bool, t: in
             if c == 1:
                 d["p"] = "u"
             elif c == 2:
-                d["p"] = "v"
+                d["p"] = "u/"
             groups[g] = d
         ns[j].nsmap = groups[g]
     model = [dict(ns[j].nsmap) for j in range(4)]
@@ -194,7 +194,7 @@ def h_bulk(c0: int, c1: int, c2: int, c3: int, which: int, i: int, children: boo
             if c == 1:
                 d["p"] = "u"
             elif c == 2:
-                d["p"] = "v"
+                d["p"] = "u/"
             groups[g] = d
         ns[j].nsmap = groups[g]
     before = [dict(ns[j].nsmap) for j in range(4)]
